@@ -9,6 +9,8 @@ NAMES="$@"; [ -z "$NAMES" ] && NAMES=$(ls seeded)
 fail=0
 for n in $NAMES; do
   d=seeded/$n
+  [ -d "$d" ] || continue
+  [[ $n == limit-* ]] && { echo "skip $n (recorded limitation, see DESIGN.md 8.9)"; continue; }
   if [[ $n == equiv-* ]]; then want=0; props="$ALL"; else
     want=1; props=$(python3 -c "
 import json,sys
